@@ -103,10 +103,105 @@ fn hash_of<T: Hash>(t: &T) -> u64 {
     h.finish()
 }
 
-fn convert(t: OwnedTerm, chain: &[u8]) -> OwnedTerm {
+/// Identifiers that sit in a slot before another one is copied over them with `Clone::clone_from`: plain ones,
+/// node-local ones, the same identifier in the other form.
+#[derive(Default)]
+struct Dirt {
+    pids: Vec<erltf::types::ExternalPid>,
+    ports: Vec<erltf::types::ExternalPort>,
+    refs: Vec<erltf::types::ExternalReference>,
+}
+
+impl Dirt {
+    fn collect(&mut self, t: &OwnedTerm) {
+        match t {
+            OwnedTerm::Pid(p) => self.pids.push(p.clone()),
+            OwnedTerm::Port(p) => self.ports.push(p.clone()),
+            OwnedTerm::Reference(r) => self.refs.push(r.clone()),
+            _ => {}
+        }
+    }
+    fn of(rng: &mut Rng) -> Dirt {
+        let mut d = Dirt::default();
+        let cfg = GenCfg::default();
+        for i in 0..24 {
+            let v = match i % 3 {
+                0 => gen_pid(rng),
+                1 => gen_port(rng),
+                _ => gen_ref(rng, &cfg),
+            };
+            if matches!(&v, Val::Ref { ids, .. } if ids.is_empty() || ids.len() > 5) {
+                continue;
+            }
+            for form in [Form::Plain, Form::Local] {
+                let mut b = vec![131u8];
+                b.extend_from_slice(&id_bytes(&v, form, rng));
+                if let Ok(t) = erltf::decode(&b) {
+                    d.collect(&t);
+                }
+            }
+        }
+        d
+    }
+}
+
+/// Copy `src` over a used slot the way `mode` says: directly, or through a container whose `clone_from` works
+/// element by element.
+fn copy_over<T: Clone>(src: &T, used: &[T], salt: usize, mode: u8) -> T {
+    if used.is_empty() {
+        return src.clone();
+    }
+    let old = || used[salt % used.len()].clone();
+    match mode {
+        0 => {
+            let mut slot = old();
+            slot.clone_from(src);
+            slot
+        }
+        1 => {
+            let mut v = vec![old(), old()];
+            v.clone_from(&vec![src.clone()]);
+            v.swap_remove(0)
+        }
+        2 => {
+            let mut o = Some(old());
+            o.clone_from(&Some(src.clone()));
+            o.unwrap()
+        }
+        _ => {
+            let mut b = Box::new(old());
+            b.clone_from(&Box::new(src.clone()));
+            *b
+        }
+    }
+}
+
+/// The same term, every identifier in it copied over a used slot.
+fn rebuilt_over(t: &OwnedTerm, dirt: &Dirt, salt: usize, mode: u8) -> OwnedTerm {
+    let go = |x: &OwnedTerm| rebuilt_over(x, dirt, salt + 1, mode);
+    match t {
+        OwnedTerm::Pid(p) => OwnedTerm::Pid(copy_over(p, &dirt.pids, salt, mode)),
+        OwnedTerm::Port(p) => OwnedTerm::Port(copy_over(p, &dirt.ports, salt, mode)),
+        OwnedTerm::Reference(r) => OwnedTerm::Reference(copy_over(r, &dirt.refs, salt, mode)),
+        OwnedTerm::Tuple(v) => OwnedTerm::Tuple(v.iter().map(go).collect()),
+        OwnedTerm::List(v) => OwnedTerm::List(v.iter().map(go).collect()),
+        OwnedTerm::ImproperList { elements, tail } => OwnedTerm::ImproperList { elements: elements.iter().map(go).collect(), tail: Box::new(go(tail)) },
+        OwnedTerm::Map(m) => OwnedTerm::Map(m.iter().map(|(k, v)| (go(k), go(v))).collect()),
+        OwnedTerm::InternalFun(f) => {
+            let mut f2 = (**f).clone();
+            f2.pid = copy_over(&f.pid, &dirt.pids, salt, mode);
+            f2.free_vars = f.free_vars.iter().map(go).collect();
+            OwnedTerm::InternalFun(Box::new(f2))
+        }
+        other => other.clone(),
+    }
+}
+
+fn convert(t: OwnedTerm, chain: &[u8], dirt: &Dirt) -> OwnedTerm {
     let mut cur = t;
-    for op in chain {
+    for (at, op) in chain.iter().enumerate() {
         cur = match op {
+            6..=9 => rebuilt_over(&cur, dirt, at * 7 + chain.len(), op - 6),
             0 => cur.clone(),
             1 => {
                 let b = BorrowedTerm::from(&cur);
@@ -137,10 +232,11 @@ fn convert(t: OwnedTerm, chain: &[u8]) -> OwnedTerm {
 }
 
 pub fn run(ctx: &Ctx) {
-    ctx.rule("cases = identifier (pid/port/ref; node names 1..255 bytes, 32/64-bit numbers, 1..5 words) x form (modern plain / LOCAL_EXT with random 8-byte hash and any admissible inner tag) x 9 term contexts x conversion chain of length 0..6 over {clone, to-borrowed-and-back, move, box}; plus every ordered pair of sibling identifiers (one field or one trailing reference word apart) in all four form combinations as the two keys of one map; distinct = distinct (kind, form, context, chain) combinations");
+    ctx.rule("cases = identifier (pid/port/ref; node names 1..255 bytes, 32/64-bit numbers, 1..5 words) x form (modern plain / LOCAL_EXT with random 8-byte hash and any admissible inner tag) x 9 term contexts x conversion chain of length 0..6 over {clone, to-borrowed-and-back, move, box, clone_from over a slot that held another identifier (directly and through Vec/Option/Box)}; plus every ordered pair of sibling identifiers (one field or one trailing reference word apart) in all four form combinations as the two keys of one map; distinct = distinct (kind, form, context, chain) combinations");
     ctx.assume("LOCAL_EXT layout = tag, 8 hash bytes, one tag-led term (the library's documented reading)");
     let mut rng = Rng::derive(ctx.seed, 10, 1);
     let cfg = GenCfg::default();
+    let dirt = Dirt::of(&mut Rng::derive(ctx.seed, 10, 3));
     // sibling identifiers (one field / one trailing word apart) side by side as the keys of one map: both must
     // survive decoding, conversions and re-encoding, each in the form it arrived in
     {
@@ -178,12 +274,12 @@ pub fn run(ctx: &Ctx) {
                                 swapped.extend_from_slice(k);
                                 swapped.extend_from_slice(&[97, v]);
                             }
-                            let chain: Vec<u8> = (0..rng.below(4)).map(|_| rng.below(6) as u8).collect();
+                            let chain: Vec<u8> = (0..rng.below(4)).map(|_| rng.below(10) as u8).collect();
                             ctx.eval(1);
                             pairs += 1;
                             ctx.class(&format!("siblings/{}/{:?}{:?}/{}", fam.name, fa, fb, wrap));
                             let wit = |d: serde_json::Value| json!({"a": m[i].show(), "b": m[j].show(), "forms": format!("{:?}/{:?}", fa, fb), "chain": chain, "bytes": hex_cap(&bytes, 200), "detail": d});
-                            match guarded(|| erltf::decode(&bytes).map(|t| erltf::encode(&convert(t, &chain)))) {
+                            match guarded(|| erltf::decode(&bytes).map(|t| erltf::encode(&convert(t, &chain, &dirt)))) {
                                 Ok(Ok(Ok(again))) => {
                                     if again != bytes && again != swapped {
                                         ctx.viol(
@@ -243,7 +339,7 @@ pub fn run(ctx: &Ctx) {
         let other = id_bytes(&other_id, if rng.bool() { Form::Plain } else { Form::Local }, &mut rng);
         let cx = rng.below(CONTEXTS.len());
         let bytes = in_context(cx, &idb, &other);
-        let chain: Vec<u8> = (0..rng.below(7)).map(|_| rng.below(6) as u8).collect();
+        let chain: Vec<u8> = (0..rng.below(7)).map(|_| rng.below(10) as u8).collect();
         ctx.eval(1);
         ctx.class(&format!("{}/{:?}/{}/{:?}", ["pid", "port", "ref"][kind], form, CONTEXTS[cx], chain));
         let wit = |d: serde_json::Value| json!({"id": id.show(), "form": format!("{:?}", form), "context": CONTEXTS[cx], "chain": chain, "bytes": hex_cap(&bytes, 160), "detail": d});
@@ -262,11 +358,11 @@ pub fn run(ctx: &Ctx) {
                 continue;
             }
         };
-        let t2 = convert(t.clone(), &chain);
+        let t2 = convert(t.clone(), &chain, &dirt);
         match guarded(|| erltf::encode(&t2)) {
             Ok(Ok(again)) => {
                 if again != bytes {
-                    let chain_kind = if chain.is_empty() { "none" } else if chain.iter().any(|c| *c == 1 || *c == 4) { "via-borrowed" } else { "clone-move" };
+                    let chain_kind = if chain.is_empty() { "none" } else if chain.iter().any(|c| *c >= 6) { "clone-from-over-a-used-slot" } else if chain.iter().any(|c| *c == 1 || *c == 4) { "via-borrowed" } else { "clone-move" };
                     ctx.viol(
                         &format!("C10:bytes-differ:{}:{:?}:{}", ["pid", "port", "ref"][kind], form, chain_kind),
                         "identifier is not re-emitted byte-for-byte",
